@@ -238,7 +238,18 @@ def update_laws(repo, col, R, name, sp, cinfo, kind) -> int:
                     continue
                 skind, ra, rb = sp["states"][key]
                 new = kin.main_region(upd[key])
-                k, xinf, E = kin.decompose_update(ev, new, f"S[{key}]")
+                own_atom = f"S[{key}]"
+                foreign = sorted(a_ for a_ in new.atoms() if a_.startswith("S[") and a_ != own_atom)
+                if own_atom not in new.atoms() and foreign:
+                    col.bad(R, fi, f"update of {key}: advances its own previous value",
+                            f"the new value of `{key}` does not depend on the old value of `{key}` but on {foreign}: the gate is "
+                            f"advanced from another state's value, which is not the solution of its own equation", node=fi.node)
+                    continue
+                try:
+                    k, xinf, E = kin.decompose_update(ev, new, own_atom)
+                except Und as e_:
+                    col.unk(R, fi, f"update of {key}", f"outside the analysable fragment: {e_}", node=fi.node)
+                    continue
                 a, b = kin.ref(ev, ra), kin.ref(ev, rb)
                 if skind == "ab":
                     k_ref, x_ref = a + b, a / (a + b)
